@@ -22,11 +22,11 @@ const ModulePath = "github.com/ThreeDotsLabs/watermill"
 
 // Config selects what is loaded.
 type Config struct {
-	Dir   string   // repository root (default /repo)
-	Tags  []string // build tags
-	Env   []string // extra environment (GOARCH=…)
-	Label string   // name of the build configuration in reports
-	Prefix string  // import path prefix of the analysed module (default ModulePath)
+	Dir    string   // repository root (default /repo)
+	Tags   []string // build tags
+	Env    []string // extra environment (GOARCH=…)
+	Label  string   // name of the build configuration in reports
+	Prefix string   // import path prefix of the analysed module (default ModulePath)
 }
 
 // Prog is a loaded, type-checked and SSA-built program.
